@@ -153,6 +153,8 @@ def _scan_harnesses():
             mode = m.group(1)
             info['units'] = [_MODE_UNIT.get(mode, mode)]
             info['props'] = list(_MODE_PROPS.get(mode, []))
+            if m.group(2) == 'ks' and 'C08' not in info['props']:
+                info['props'].append('C08')      # keystream harnesses cut the byte string into pieces
             info['bounds'] = '%s %s: block size %s bytes, cipher parallel width %s, %s blocks (1 block then the rest), %s; all IVs, data and cipher outputs symbolic' % (
                 mode, m.group(2), m.group(3), m.group(4), m.group(5), {'ip': 'in place', 'b2b': 'buffer to buffer', 'nat': 'native search only', None: ''}[m.group(6)])
         if n.startswith('misc_'):
@@ -227,8 +229,24 @@ PROP_HARNESS = {
                          'ige_enc_b2w2_n3_b2b', 'ige_dec_b2w2_n3_ip', 'ige_dec_b3w2_n3_b2b']},
     'C03': {'quick': ['cfb_dec_b2w2_n3_b2b', 'ofb_enc_b2w2_n3_b2b'],
             'thorough': ['cfb_enc_b2w2_n3_b2b', 'cfb_dec_b2w2_n3_ip', 'cfb_dec_b2w2_n3_b2b', 'ofb_enc_b2w2_n3_b2b', 'ofb_dec_b2w2_n3_ip',
-                         'cfb_dec_b3w3_n5_b2b', 'cfb_enc_b3w3_n4_ip', 'cfb8_enc_b2w2_n4_b2b', 'cfb8_dec_b3w2_n4_b2b', 'ofb_enc_b3w3_n4_ip']},
+                         'cfb_dec_b3w3_n5_b2b', 'cfb_enc_b3w3_n4_ip', 'cfb8_enc_b2w2_n4_b2b', 'cfb8_dec_b3w2_n4_b2b', 'ofb_enc_b3w3_n4_ip',
+                         'cfbbuf_enc_b2w1_n8', 'cfbbuf_dec_b2w1_n8'], 'timeout': 3000},
     'C01': {'quick': [], 'thorough': ['cbc_dec_b3w3_n5_b2b', 'pcbc_dec_b3w3_n4_b2b', 'ige_dec_b3w2_n3_b2b', 'cfb_dec_b3w3_n5_ip']},
     'C07': {'quick': ['cbc_dec_b2w2_n3_ip'], 'thorough': ['cbc_dec_b3w3_n5_ip', 'cbc_dec_b1w3_n5_b2b', 'cfb_dec_b3w3_n5_b2b', 'pcbc_dec_b3w3_n4_b2b']},
     'C12': {'quick': ['pcbc_dec_b2w2_n3_b2b'], 'thorough': ['cbc_dec_b3w3_n5_b2b', 'cfb_dec_b3w3_n5_b2b', 'ige_dec_b3w2_n3_b2b', 'cfb8_dec_b3w2_n4_b2b']},
+    # stream modes: the byte-level harnesses go through the real buffering wrapper of the dependency
+    'C04': {'quick': ['ctr_32be_b4w2_n3'],
+            'thorough': ['ctr_32be_b4w2_n3', 'ctr_32le_b4w2_n3', 'ctr_32be_b8w2_n3', 'ctr_32le_b8w3_n3', 'ctr_64be_b8w2_n3', 'ctr_64le_b8w3_n3',
+                         'ctr_64be_b16w2_n3', 'ctr_64le_b16w2_n3', 'ctr_128be_b16w2_n3', 'ctr_128le_b16w2_n3', 'ctr_128be_b32w2_n2', 'ctr_128le_b32w2_n2']},
+    'C05': {'quick': [],
+            'thorough': ['cts_cbc1enc_b2w2_n3', 'cts_cbc2enc_b2w2_n3', 'cts_cbc3enc_b2w2_n3', 'cts_cbc1dec_b2w2_n3', 'cts_cbc2dec_b2w2_n3',
+                         'cts_ecb1enc_b2w2_n3', 'cts_ecb2enc_b2w2_n3', 'cts_ecb3enc_b2w2_n3', 'cts_ecb1dec_b2w2_n3', 'cts_ecb2dec_b2w2_n3', 'cts_ecb3dec_b2w2_n3',
+                         'cts_cbc1enc_b3w2_n3', 'cts_cbc2enc_b3w2_n3', 'cts_cbc3enc_b3w2_n3', 'cts_ecb1enc_b3w2_n3', 'cts_ecb2enc_b3w2_n3', 'cts_ecb3enc_b3w2_n3',
+                         'cts_ecb1dec_b3w2_n3', 'cts_ecb2dec_b3w2_n3', 'cts_ecb3dec_b3w2_n3'], 'timeout': 3000},
+    'C08': {'quick': ['ofb_ks_b2w2_n4'],
+            'thorough': ['ofb_ks_b2w2_n4', 'ofb_ks_b3w3_n4', 'ctr_32be_b4w2_n3', 'ctr_64le_b8w3_n3', 'cfbbuf_enc_b2w1_n8', 'cfbbuf_dec_b2w1_n8'], 'timeout': 3000},
+    'C10': {'quick': [], 'thorough': ['ctr_32be_b4w2_n3', 'ctr_32le_b4w2_n3', 'ctr_64be_b8w2_n3', 'ctr_128le_b16w2_n3']},
+    'C11': {'quick': [], 'thorough': ['ctr_limit_b4w2_n3'], 'timeout': 3000},
+    'C13': {'quick': [], 'thorough': ['cts_cbc1enc_b2w2_n3', 'cts_ecb2enc_b2w2_n3', 'cts_ecb3dec_b2w2_n3', 'cfbbuf_enc_b2w1_n8', 'cfbbuf_dec_b2w1_n8'], 'timeout': 3000},
+    'C14': {'quick': [], 'thorough': ['cts_ecb1enc_b2w2_n3', 'cts_ecb3enc_b2w2_n3', 'cts_cbc3enc_b2w2_n3', 'cfbbuf_enc_b2w1_n8', 'ofb_ks_b2w2_n4'], 'timeout': 3000},
 }
